@@ -235,7 +235,7 @@ func runC06R2(c *Ctx) {
 	var add *ssa.BinOp
 	for _, b := range fn.Blocks {
 		for _, in := range b.Instrs {
-			if p, ok := in.(*ssa.Phi); ok && p.Type().String() == "uint32" {
+			if p, ok := in.(*ssa.Phi); ok && (p.Type().String() == "uint32" || p.Type().String() == "uint64") {
 				for _, e := range p.Edges {
 					if bo, ok := e.(*ssa.BinOp); ok && bo.Op == token.ADD && (bo.X == ssa.Value(p) || bo.Y == ssa.Value(p)) {
 						acc, add = p, bo
@@ -259,6 +259,7 @@ func runC06R2(c *Ctx) {
 	if w == ssa.Value(acc) {
 		w = add.X
 	}
+	w = stripConvNum(w) // the weights are uint32, the total may be kept in a wider type
 	_, wf, wbase, wok := loadedField(w)
 	c.Check("C06.R2", fk+":accumulate-weight", add.Pos(), wok && wf == "Weight", "adds weightedCluster.Cluster.Weight", "accumulates something other than the cluster's Weight")
 	// every map insert stores clusterWeight loaded from the same Cluster struct and happens in the same block as the add
@@ -272,6 +273,7 @@ func runC06R2(c *Ctx) {
 		// while the total keeps it: the entries then no longer add up to the total and the missing share of the draws
 		// selects no weighted cluster at all.
 		isW := func(v ssa.Value) bool {
+			v = stripConvNum(v)
 			_, f2, b2, ok2 := loadedField(v)
 			return ok2 && f2 == "Weight" && sameAddrBase(b2, wbase)
 		}
